@@ -16,6 +16,9 @@ from harness import common, agg_sched as A
 
 TARGETS = ["theories/Props/C17.vo", "theories/Proofs/GenEq_AggOps.vo"]
 GENEQ = {"theories/Proofs/GenEq_AggOps.vo": "AggOps"}
+# T1 units added after round 4 of the seeded changes
+TARGETS = TARGETS + ["theories/Proofs/GenEq_AggIO.vo"]
+GENEQ = dict(GENEQ, **{"theories/Proofs/GenEq_AggIO.vo": "AggIO"})
 ALLOWED_AXIOMS = []
 OP = 1700
 RULE = ("case = (initial output file in {absent, empty, header only, header+rows}, stale buffer file in {none, foreign name, a subject "
